@@ -865,7 +865,7 @@ def c07_divergence(rng):
 
 
 # ------------------------------------------------------------ refit histories (C02 / C04 / C15)
-def leaf_refit(rng, kinds=None):
+def leaf_refit(rng, kinds=None, helpers=False):
     """A bare lifting function fitted once with one state/input split and fitted again with
     another split of the same width must behave as a fresh estimator fitted with the latter."""
     bad = []
@@ -890,6 +890,14 @@ def leaf_refit(rng, kinds=None):
                           and a.shape == b.shape and np.array_equal(a, b))
                     info = dict(reused=[int(reused.n_states_out_), int(reused.n_inputs_out_)],
                                 fresh=[int(fresh.n_states_out_), int(fresh.n_inputs_out_)])
+                    if ok and helpers:
+                        # the lift / retract helpers of the refitted estimator are those of the fresh one
+                        Xs_ = X[:, :X.shape[1] - nu2]
+                        for nm, arg in (('lift', X), ('lift_state', Xs_), ('lift_input', X)):
+                            ha, hb = getattr(reused, nm)(arg), getattr(fresh, nm)(arg)
+                            if ha.shape != hb.shape or not np.array_equal(ha, hb):
+                                ok = False; info['helper'] = nm
+                                break
                 except Exception as e:  # noqa
                     ok, info = False, dict(error=f'{type(e).__name__}: {e}')
                 if not ok:
